@@ -39,6 +39,8 @@ struct Link {
     reader: Client,                     // at `from`
     replies: Vec<String>,               // lines travelling to -> from
     open: bool,
+    sent: u64,
+    back: u64,
 }
 
 struct Cluster {
@@ -74,17 +76,22 @@ impl Cluster {
         nundb::verif_hooks::set_data_dir(Some(self.nodes[i].dir.clone()));
     }
 
+    fn expected_links(&self) -> usize {
+        // every member entry that carries a sender was created together with a link thread
+        let mut n = 0;
+        for node in &self.nodes {
+            let cs = node.dbs.cluster_state.lock().unwrap();
+            let ms = cs.members.lock().unwrap();
+            n += ms.values().filter(|m| m.sender.is_some()).count();
+        }
+        n
+    }
+
     fn collect_links(&mut self) {
-        // link threads are spawned by the supervisor: give them a moment to register
-        let mut idle = 0;
-        while idle < 3 {
-            std::thread::sleep(std::time::Duration::from_millis(2));
+        // link threads are spawned by the supervisor: wait until each has registered
+        let deadline = std::time::Instant::now() + std::time::Duration::from_millis(3000);
+        loop {
             let new = nundb::verif_hooks::take_links();
-            if new.is_empty() {
-                idle += 1;
-                continue;
-            }
-            idle = 0;
             for l in new {
                 let fi = self.idx(&l.from);
                 self.enter(fi);
@@ -111,8 +118,15 @@ impl Cluster {
                     reader,
                     replies: Vec::new(),
                     open: true,
+                    sent: 0,
+                    back: 0,
                 });
             }
+            let open_now = self.links.iter().filter(|l| l.open).count();
+            if open_now >= self.expected_links() || std::time::Instant::now() > deadline {
+                break;
+            }
+            std::thread::sleep(std::time::Duration::from_millis(1));
         }
     }
 
@@ -159,6 +173,7 @@ impl Cluster {
             }
         }
         self.crossings += 1;
+        self.links[li].sent += 1;
         if std::env::var("VERIF_TRACE").is_ok() {
             eprintln!("TRACE {}>{} {} => {}", self.links[li].from, self.links[li].to, line, res);
         }
@@ -177,6 +192,7 @@ impl Cluster {
         let l = &mut self.links[li];
         if line != "ok" {
             self.crossings += 1;
+            l.back += 1;
             if std::env::var("VERIF_TRACE").is_ok() {
                 eprintln!("TRACE reply {}>{} {}", l.to, l.from, line);
             }
@@ -310,7 +326,7 @@ impl Cluster {
             .links
             .iter()
             .filter(|l| l.open)
-            .map(|l| format!("{}>{}", l.from, l.to))
+            .map(|l| format!("{}>{}:{}/{}", l.from, l.to, l.sent, l.back))
             .collect();
         ls.sort();
         out.push_str(&format!(" links=[{}]", ls.join(",")));
@@ -349,8 +365,9 @@ pub fn run(path: &str, workdir: &str) {
         out.line(&format!("C {}", case.id));
         let _ = nundb::verif_hooks::take_links();
         let mut cl = Cluster { nodes: Vec::new(), links: Vec::new(), crossings: 0 };
+        let mut notices: HashMap<(usize, usize), Vec<String>> = HashMap::new();
         // header: name:role:pid ...
-        for (i, h) in case.header.iter().enumerate() {
+        for (i, h) in case.header.iter().filter(|h| h.contains('/')).enumerate() {
             let p: Vec<&str> = h.split('/').collect();
             let dir = fresh_dir(workdir, &format!("cl{}", i));
             cl.nodes.push(new_cnode(p[0], p[2].parse().unwrap(), role_of(p[1]), dir));
@@ -373,6 +390,32 @@ pub fn run(path: &str, workdir: &str) {
                     match std::panic::catch_unwind(std::panic::AssertUnwindSafe(|| process_request(&line, &dbs, client))) {
                         Ok(r) => resp_str(&r),
                         Err(_) => "PANIC".to_string(),
+                    }
+                }
+                "rsv" => {
+                    // the arbiter (a client of node op[1]) answers the idx-th notice it received
+                    let i = cl.idx(&op[1]);
+                    let sid: usize = op[2].parse().unwrap();
+                    let idx: usize = op[3].parse().unwrap();
+                    let value = unhex_s(&op[4]);
+                    let notes = notices.get(&(i, sid)).cloned().unwrap_or_default();
+                    if notes.is_empty() {
+                        "NoNotice".to_string()
+                    } else {
+                        let nt = &notes[idx % notes.len()];
+                        let t: Vec<&str> = nt.splitn(7, ' ').collect();
+                        if t.len() < 5 {
+                            "NoNotice".to_string()
+                        } else {
+                            let line = format!("resolve {} {} {} {} {}", t[1], t[2], t[4], t[3], value);
+                            cl.enter(i);
+                            let dbs = cl.nodes[i].dbs.clone();
+                            let client = &mut cl.nodes[i].sessions[sid].0;
+                            match std::panic::catch_unwind(std::panic::AssertUnwindSafe(|| process_request(&line, &dbs, client))) {
+                                Ok(r) => resp_str(&r),
+                                Err(_) => "PANIC".to_string(),
+                            }
+                        }
                     }
                 }
                 "addsec" => {
@@ -428,9 +471,14 @@ pub fn run(path: &str, workdir: &str) {
             };
             // client inboxes
             let mut parts = Vec::new();
-            for n in cl.nodes.iter_mut() {
+            for (ni, n) in cl.nodes.iter_mut().enumerate() {
                 for (i, (_, rx)) in n.sessions.iter_mut().enumerate() {
                     let msgs = drain_rx(rx);
+                    for m in &msgs {
+                        if m.starts_with("resolve ") {
+                            notices.entry((ni, i)).or_insert_with(Vec::new).push(m.clone());
+                        }
+                    }
                     if !msgs.is_empty() {
                         let m: Vec<String> = msgs.iter().map(|x| esc(x.as_bytes())).collect();
                         parts.push(format!("{}/{}:[{}]", n.name, i, m.join("|")));
